@@ -329,6 +329,7 @@ def rule_reset(chk, P, prefix='I'):
             alloc[by_off[vals[0]]] = (vals[1], vals[2])
     # ---- per variant
     M = build.macros()
+    reset_sets = {}
     for tu in P.variant_tus():
         vt = tu.split('__')[0]
         rfn = reset_fn_name(P, tu)
@@ -342,7 +343,12 @@ def rule_reset(chk, P, prefix='I'):
             a = ev['e'].get('a', [])
             if fn in rf and a:
                 fld = cf.strip_casts(a[0]).get('f')
+                # a manager reset twice is the copy-paste form of a manager not reset at all
+                i1.check(fld not in resets, '%s:%s:once' % (vt, fld), ev['loc'],
+                         '%s: %s resets state->%s twice (%s and %s): the call was meant for another manager, which keeps the lane state of '
+                         'earlier jobs' % (vt, rfn, fld, (resets.get(fld) or ('', 0, '?'))[2], ev['loc']))
                 resets[fld] = (fn, cf.evalc(a[1]) if len(a) > 1 else None, ev['loc'])
+        reset_sets[vt] = (set(resets), g.loc)
         # fields used by the variant's dispatch (anything but the reset function itself)
         used = {}
         for f in P.funcs(tu):
@@ -393,6 +399,16 @@ def rule_reset(chk, P, prefix='I'):
                              fn, fld, lanes, fn, sorted(info['lanes'])))
             else:
                 i3.ok('%s:%s:unused' % (vt, fld))
+
+    # variants of one architecture reset the same managers (sse_t1..t3, avx2_t1..t4, avx512_t1..t2)
+    arches = {}
+    for vt, (flds, loc) in reset_sets.items():
+        arches.setdefault(vt.split('_t')[0], {})[vt] = (flds, loc)
+    for arch, vs in sorted(arches.items()):
+        union = set().union(*[x[0] for x in vs.values()])
+        for vt, (flds, loc) in sorted(vs.items()):
+            missing = sorted(union - flds)
+            i1.check(not missing, '%s:siblings' % vt, loc, '%s does not reset %s although the other %s variants do' % (vt, missing, arch))
 
 
 def live_ooo_fields(P, tu, M):
